@@ -202,6 +202,11 @@ def tweak_decl(rng, cls, vg):
                     and not (fd["k"] == "enumCls" and isinstance(v, str)):
                 if fd["k"] == "float" and isinstance(v, int):
                     v = gen.fl(v)
+                if fd["k"] == "seqOf" and fd["item"]["k"] == "enumCls" and isinstance(v, dict) and "l" in v:
+                    # a default is given in its normal form: members, not the names an Enum field also accepts
+                    # (a list mixing members and name strings makes serialize_val raise inside _default_to_json,
+                    # which then keeps the raw value: outside the model's untyped defaultJ)
+                    v = {"l": [({"e": [fd["item"]["cls"], x]} if isinstance(x, str) else x) for x in v["l"]]}
                 defaults.append([n, v])
     if defaults:
         cls["defaults"] = defaults
@@ -926,6 +931,17 @@ def run_impl(case):
     return res
 
 
+def _json_doc(w):
+    """wire value of a JSON document: every object key is a string, at every level (Sch.jsonDoc)"""
+    if isinstance(w, dict):
+        if "m" in w:
+            return all(isinstance(k, str) and _json_doc(v) for k, v in w["m"])
+        if "l" in w:
+            return all(_json_doc(x) for x in w["l"])
+        return "f" in w
+    return w is None or isinstance(w, (bool, int, str))
+
+
 def _match(p, s):
     try:
         return re.match(p, s) is not None
@@ -984,8 +1000,8 @@ def stmt_exact(d, top=True):
     return all(stmt_exact(v, False) for kk, v in d.items() if kk not in ("values", "defaults"))
 
 
-FEATURE_PRIORITY = ["positional-shorter", "map-size", "map-key-constraint", "oneOf", "notF", "allOf",
-                    "sign-with-explicit-bound", "unique-by-python-eq"]
+FEATURE_PRIORITY = ["positional-shorter", "map-key-constraint", "oneOf", "notF", "allOf",
+                    "sign-with-explicit-bound", "unique-by-python-eq", "enum-null"]
 
 
 def inexact_features(d, acc):
@@ -999,13 +1015,13 @@ def inexact_features(d, acc):
             acc.add("positional-shorter")
         if k == "tupleOf":
             pass
-        if k in ("mapOf", "mapAny") and (d.get("minItems") is not None or d.get("maxItems") is not None):
-            acc.add("map-size")
         if k == "mapOf" and d["key"].get("k") == "string" and (d["key"].get("pattern") or d["key"].get("minLength")
                                                                 or d["key"].get("maxLength")):
             acc.add("map-key-constraint")
         if k in ("oneOf", "notF", "allOf"):
             acc.add(k)
+        if k == "enumLit" and any(v is None for v in d.get("values", [])):
+            acc.add("enum-null")        # null is an enum member for the schema and an absent key for the runtime
         if k in ("integer", "number", "float") and d.get("sign", "any") != "any":
             if (d["sign"] in ("pos", "nonneg") and d.get("min") is not None) or \
                     (d["sign"] in ("neg", "nonpos") and d.get("max") is not None):
@@ -1408,8 +1424,9 @@ def correspondence(case, impl, model):
             return "schemas differ: model " + canon_schema(model["schema"])[:400] + " impl " + canon_schema(impl["schema"])[:400]
         if canon_schema(model["defs"]) != canon_schema(impl["defs"]):
             return "definitions differ: model " + canon_schema(model["defs"])[:400] + " impl " + canon_schema(impl["defs"])[:400]
-        if not model.get("fixAgrees") and (model.get("inFrag") or model.get("inWfFrag")):
-            return "dialectFix (emit false) differs from emit true"
+        # (`dialectFix (emit false) = emit true` is a theorem for every declaration — Props/C08
+        # dialect_fix_is_emit_true; the driver's structural comparison `fixAgrees` is informational: it is false
+        # when a default is not a JSON value, which structEq does not compare)
         want = bool(impl["wf"] and impl["refs_ok"])
         if model["wfImpl"] != want and not (impl.get("wf_err") or {}).get("key", "").startswith("crash"):
             return f"well-formedness: Lean wfDocument={model['wfImpl']}, Draft4Validator.check_schema+refs={want} ({impl.get('wf_err')}, {impl.get('bad_refs')})"
@@ -1474,12 +1491,19 @@ def oracle(case, impl, model):
     mi = iter(model.get("insts", []))
     for r in impl.get("insts", []):
         m = next(mi, {}) if "x" in r else {}
+        # (a serialization whose JSON text differs from the Python document — non-string Map keys — is not the
+        # document the theorem speaks about)
         if r.get("valid") is False and model.get("inFrag") and model.get("refsFaithful") and m.get("inRegion") \
-                and m.get("renameSafe", True) and not uses_mixin_enum(case):
+                and m.get("renameSafe", True) and not uses_mixin_enum(case) and "doc_raw" not in r:
             fails.append(("admits:inside-the-proved-region",
                           "schema_admits_partial covers this (class, instance), yet the real schema rejects the real "
                           f"serialization: {r['error']['msg']}; doc " + json.dumps(r["doc"])[:200]))
-        if r.get("valid") is False and model.get("refsFaithful") is not False:
+        if r.get("valid") is False and model.get("refsFaithful") is not False and "doc_raw" in r \
+                and r["error"].get("validator") == "minProperties":
+            # Python keys that are different (1 and "1") become one JSON member name
+            fails.append(("admits:map-size-key-collision",
+                          f"a sized Map whose keys collide in JSON: {r['error']['msg']} at {'/'.join(r['error']['path'])}; doc " + json.dumps(r["doc"])[:200]))
+        elif r.get("valid") is False and model.get("refsFaithful") is not False:
             fails.append((f"admits:{admit_key(r['error'], case['cls'], r.get('x'), case.get('mapper'), uses_mixin_enum(case), renaming(case), case.get('own_mappers'))}",
                           f"serialization of a valid instance is rejected by the schema: {r['error']['msg']} at {'/'.join(r['error']['path'])}; doc " + json.dumps(r["doc"])[:200]))
         if "valid_crash" in r:
@@ -1499,8 +1523,8 @@ def oracle(case, impl, model):
         hs_ok = all((not sr) or _match(p, t) for p, t, sr in impl.get("search", []) if p.startswith("^"))
         for bi, (dj, r, ck) in enumerate(todo):
             if r.get("valid") and "err" in r.get("deser", {}) and model.get("inExact") and hs_ok \
-                    and not uses_mixin_enum(case) and isinstance(dj, dict) and "m" in dj \
-                    and all(isinstance(k, str) for k, _ in dj["m"]):
+                    and model.get("refsFaithful") and not uses_mixin_enum(case) and isinstance(dj, dict) \
+                    and "m" in dj and _json_doc(dj):
                 fails.append(("exact:inside-the-proved-region",
                               "schema_exact_class_partial covers this (class, document), yet the real Deserializer rejects a document "
                               f"the real schema admits ({r['deser']['err']}: {r['deser'].get('msg')}): " + json.dumps(dj)[:250]))
